@@ -5,6 +5,20 @@ rename_locals   every function-level local, comprehension variable and lambda
                 parameter gets a new spelling
 reemit          every file is re-emitted through ast.unparse (comments,
                 layout, parentheses and string quoting are lost)
+commute_mult    the operands of every product `a * b` change places (no class
+                of the package overloads an arithmetic operator; products
+                whose two operands both contain a call are left alone, the
+                order of evaluation could matter there)
+flip_compare    `a < b` becomes `b > a`, `a == b` becomes `b == a` (single
+                comparisons; operands that both contain a call left alone)
+invert_if       `if c: A else: B` becomes `if not c: B else: A` (two-armed
+                statements whose else arm is not an elif chain)
+temp_return     `return e` becomes `ret_tmp_ = e; return ret_tmp_` for compound e
+dedent_else     `if c: ...return else: R` becomes `if c: ...return` followed by R
+indent_else     the reverse: the rest of the block becomes the else arm
+expand_ternary  `T = a if c else b` / `return a if c else b` become statements
+negate_compare  two-armed `if a is b` / `==` / `in` (and their negations) get
+                the negated operator and exchanged arms
 """
 import ast
 import os
@@ -93,4 +107,118 @@ def reemit(root):
     return n
 
 
-GLOBAL_TWINS = {'rename-locals': rename_locals, 'reemit': reemit}
+def _has_call(e):
+    return any(isinstance(x, (ast.Call, ast.Yield, ast.Await, ast.NamedExpr))
+               for x in ast.walk(e))
+
+
+class _Commute(ast.NodeTransformer):
+    def visit_BinOp(self, n):
+        self.generic_visit(n)
+        if isinstance(n.op, ast.Mult) and not (
+                _has_call(n.left) and _has_call(n.right)):
+            n.left, n.right = n.right, n.left
+        return n
+
+
+class _FlipCompare(ast.NodeTransformer):
+    FLIP = {ast.Lt: ast.Gt, ast.Gt: ast.Lt, ast.LtE: ast.GtE, ast.GtE: ast.LtE,
+            ast.Eq: ast.Eq, ast.NotEq: ast.NotEq}
+
+    def visit_Compare(self, n):
+        self.generic_visit(n)
+        if len(n.ops) == 1 and type(n.ops[0]) in self.FLIP and not (
+                _has_call(n.left) and _has_call(n.comparators[0])):
+            n.left, n.comparators = n.comparators[0], [n.left]
+            n.ops = [self.FLIP[type(n.ops[0])]()]
+        return n
+
+
+class _InvertIf(ast.NodeTransformer):
+    def visit_If(self, n):
+        self.generic_visit(n)
+        if n.orelse and not (len(n.orelse) == 1 and
+                             isinstance(n.orelse[0], ast.If)):
+            n.test = ast.UnaryOp(ast.Not(), n.test)
+            n.body, n.orelse = n.orelse, n.body
+        return n
+
+
+class _TempReturn(ast.NodeTransformer):
+    def visit_Lambda(self, n):
+        return n
+
+    def _body(self, body):
+        out = []
+        for s in body:
+            s = self.visit(s)
+            if isinstance(s, ast.Return) and s.value is not None and \
+                    not isinstance(s.value, (ast.Name, ast.Constant)):
+                out.append(ast.Assign([ast.Name('ret_tmp_', ast.Store())],
+                                      s.value))
+                out.append(ast.Return(ast.Name('ret_tmp_', ast.Load())))
+            else:
+                out.append(s)
+        return out
+
+    def generic_visit(self, n):
+        for fld in ('body', 'orelse', 'finalbody'):
+            b = getattr(n, fld, None)
+            if isinstance(b, list) and b and isinstance(b[0], ast.stmt):
+                setattr(n, fld, self._body(b))
+        for h in getattr(n, 'handlers', []) or []:
+            h.body = self._body(h.body)
+        return n
+
+
+class _NegateCompare(ast.NodeTransformer):
+    NEG = {ast.IsNot: ast.Is, ast.NotEq: ast.Eq, ast.NotIn: ast.In,
+           ast.Is: ast.IsNot, ast.Eq: ast.NotEq, ast.In: ast.NotIn}
+
+    def visit_If(self, n):
+        self.generic_visit(n)
+        if n.orelse and not (len(n.orelse) == 1 and
+                             isinstance(n.orelse[0], ast.If)) and \
+                isinstance(n.test, ast.Compare) and len(n.test.ops) == 1 \
+                and type(n.test.ops[0]) in self.NEG:
+            n.test.ops = [self.NEG[type(n.test.ops[0])]()]
+            n.body, n.orelse = n.orelse, n.body
+        return n
+
+
+class _Fn:
+    """adapter: a function of canon applied to the whole module"""
+    def __init__(self, f):
+        self.f = f
+
+    def __call__(self):
+        return self
+
+    def visit(self, tree):
+        return self.f(tree)
+
+
+def _transform(cls):
+    def run(root):
+        n = 0
+        for p in _each_file(root):
+            src = open(p, encoding='utf-8').read()
+            t = cls().visit(ast.parse(src))
+            ast.fix_missing_locations(t)
+            out = ast.unparse(t)
+            if out != ast.unparse(ast.parse(src)):
+                n += 1
+            open(p, 'w', encoding='utf-8').write(out + '\n')
+        return n
+    return run
+
+
+GLOBAL_TWINS = {'rename-locals': rename_locals, 'reemit': reemit,
+                'commute-mult': _transform(_Commute),
+                'flip-compare': _transform(_FlipCompare),
+                'invert-if': _transform(_InvertIf),
+                'temp-return': _transform(_TempReturn),
+                'dedent-else': _transform(_Fn(canon.flatten_else)),
+                'indent-else': _transform(_Fn(canon.absorb_else)),
+                'expand-ternary': _transform(_Fn(canon.expand_ifexp)),
+                'negate-compare': _transform(_NegateCompare)}
